@@ -420,6 +420,14 @@ ensures:
     r is Ok, r->Ok_0.index == *index, r->Ok_0.hash@ == data@.skip(8), le_bytes(r->Ok_0.length, 8) == data@.subrange(0, 8)
 @*/
 
+/// every 40-byte record read from the local tree store carries a size below 2^48
+pub open spec fn infos_small(infos: Option<&[StoreInfo]>) -> bool {
+    infos is Some ==> forall|i: int, v: u64| 0 <= i < infos->Some_0@.len() && !(#[trigger] infos->Some_0@[i]).miss && infos->Some_0@[i].data is Some
+        && #[trigger] le_bytes(v, 8) == infos->Some_0@[i].data->Some_0@.subrange(0, 8) ==> v <= 0xffff_ffff_ffff
+}
+pub open spec fn map_small(nodes: IntMap<Option<Node>>) -> bool {
+    forall|k: u64| #![trigger nodes@[k]] nodes@.contains_key(k) && nodes@[k] is Some ==> nodes@[k]->Some_0.length <= 0xffff_ffff_ffff
+}
 impl MerkleTree {
     /// the stored tree is long enough for 2*length to be computed (the length of a core is below 2^40)
     pub open spec fn t_wf(&self) -> bool { self.length <= 0xff_ffff_ffff && self.byte_length <= 0xff_ffff_ffff_ffff && self.truncate_to <= 0xff_ffff_ffff && self.roots@.len() <= 64 }
@@ -470,12 +478,15 @@ impl MerkleTree {
     requires:
         infos is Some ==> forall|i: int| 0 <= i < infos->Some_0@.len() ==> ((#[trigger] infos->Some_0@[i]).miss || (infos->Some_0@[i].data is Some && infos->Some_0@[i].data->Some_0@.len() >= 8))
     ensures:
-        *final(self) == *old(self), r is Ok
+        *final(self) == *old(self), r is Ok,
+        // records whose size field is below 2^48 give nodes whose length is
+        infos_small(infos) ==> map_small(r->Ok_0)
     sub `for info in infos \{` => `for info in it: infos.iter() {`
     loop 1:
         invariant
             *self == *old(self),
-            forall|i: int| 0 <= i < infos@.len() ==> ((#[trigger] infos@[i]).miss || (infos@[i].data is Some && infos@[i].data->Some_0@.len() >= 8))
+            forall|i: int| 0 <= i < infos@.len() ==> ((#[trigger] infos@[i]).miss || (infos@[i].data is Some && infos@[i].data->Some_0@.len() >= 8)),
+            infos_small(Some(infos)) ==> map_small(nodes)
     @*/
     /*@ fn src/tree/merkle_tree.rs MerkleTree::changeset
     tags: C04 C03 C01
